@@ -80,6 +80,10 @@ def check_property(a):
             if ob_belongs(o, uprops, prop):
                 o['unit'] = r['unit']
                 obs.append(o)
+    # obligations of bounded stand-in units (stated bound in the unit's preconditions) are decided like the others but
+    # reported apart and never counted as proved
+    bounded_units = {r['unit']: r.get('bounded') for r in results if r.get('bounded')}
+    bounded_obs = [o for o in obs if o['unit'] in bounded_units and o['kind'] != 'cover']
     counted = [o for o in obs if o['kind'] != 'cover']
     covers = [o for o in obs if o['kind'] == 'cover']
     proved = [o for o in counted if o['status'] == 'proved']
@@ -144,7 +148,8 @@ def check_property(a):
     replay_paths = []
     if violations:
         from .replay import make_replay
-        exit_code = EXIT_VIOLATION if exit_code == EXIT_OK else exit_code
+        # a refuted obligation stands on its own: it is reported as a violation even when another unit could not be run
+        exit_code = EXIT_VIOLATION
         by_label = {}
         for o in violations:
             by_label.setdefault((o['unit'], o['label']), []).append(o)
@@ -218,8 +223,11 @@ def check_property(a):
     n_open = len(refuted) + len(unknown) + len(regressed)
     level = 'proof' if (n_open == 0 and not errors and counted) else 'other'
     coverage = {
-        'obligations': len(counted),
-        'discharged': len(proved),
+        'obligations': len(counted) - len(bounded_obs),
+        'discharged': len([o for o in proved if o['unit'] not in bounded_units]),
+        'bounded_units': [{'unit': un, 'bound': b, 'obligations': len([o for o in bounded_obs if o['unit'] == un]),
+                           'discharged_within_bound': len([o for o in bounded_obs if o['unit'] == un and o['status'] == 'proved']),
+                           'label': 'bounded - not counted as proved'} for un, b in sorted(bounded_units.items())],
         'checker_cmd': './check %s --tier %s' % (prop, tier),
         'trusted_base': ['pyvc VC generator (/verif/pyvc) and its semantics of the Python subset', 'z3 5.1.0 (python3-vt)', 'cvc5 1.0.3 (fallback)',
                          'CPython semantics of the built-ins axiomatised in pyvc/builtins.py'],
